@@ -1,0 +1,15 @@
+//go:build verif
+
+// Contracts for package accesscontroller/simple, read by /verif/govc. Comments only.
+package simple
+
+//@ func (*simpleAccessController).CanAppend
+//@   props C03 C12
+//@   flag nilcalls
+//@   requires e != nil && ref(e) != 0 && ptr(e, "entry.Entry").Identity != nil
+//@   ghost id := ptr(e, "entry.Entry").Identity.ID
+//@   ghost W := o.allowedKeys["write"]
+//@   loop 1 invariant forall j Int :: 0 <= j && j < $i ==> W[j] != id && W[j] != "*"
+//@   ensures result == nil ==> (exists j Int :: 0 <= j && j < len(W) && (W[j] == id || W[j] == "*"))
+//@   ensures (forall j Int :: 0 <= j && j < len(W) ==> W[j] != id && W[j] != "*") ==> result != nil
+//@   modifies nothing
